@@ -279,4 +279,6 @@ func runC09(e *Engine, r *Report) {
 	ruleLogReaderRebase(e, r)
 	ruleTanIndexAllNodes(e, r)
 	ruleAppendSetsRange(e, r)
+	ruleTanRemoveAll(e, r)
+	borrow(e, r, "C20", "MPT-import-batch")
 }
